@@ -502,7 +502,7 @@ fn finish(outcome: Result<Result<(), LibErr>, Outcome>, src: Option<(&Backing, &
     }
 }
 
-pub fn exec_resize(rz: &mut fir::Resizer, r: &ResizeOp, backend: Backend, var: Var) -> OpOut {
+pub fn exec_resize(rz: &mut fir::Resizer, r: &ResizeOp, backend: Option<Backend>, var: Var) -> OpOut {
     let src = make_src(&r.src, r.pt);
     let src_before = zone::off(|| src.vec.clone());
     let dpt = r.dst_pt.unwrap_or(r.pt);
@@ -511,7 +511,9 @@ pub fn exec_resize(rz: &mut fir::Resizer, r: &ResizeOp, backend: Backend, var: V
         Ok(o) => o,
         Err(e) => return finish(Ok(Err(e)), Some((&src, &src_before)), &dst),
     };
-    unsafe { rz.set_cpu_extensions(cpu_ext(backend)) };
+    if let Some(b) = backend {
+        unsafe { rz.set_cpu_extensions(cpu_ext(b)) };
+    }
     set_watch(&dst);
     let res = if r.src.kind.is_dyn() {
         guarded(|| {
@@ -683,6 +685,10 @@ pub fn run_client(scn: &Scenario, ci: usize, var: Var, yield_between_ops: bool) 
         let _z = zone::enter(zone::LIBRARY);
         fir::Resizer::new()
     }];
+    // the back-end each Resizer was last told to use (None = never told: CPU default).
+    // `set_cpu_extensions` is called only when an operation asks for another back-end than
+    // the Resizer already has, so that a clone / reset has to carry the setting itself.
+    let mut known: Vec<Option<Backend>> = vec![None];
     let mut cur = 0usize;
     let mut outs = Vec::with_capacity(client.ops.len());
     for (k, op) in client.ops.iter().enumerate() {
@@ -709,6 +715,7 @@ pub fn run_client(scn: &Scenario, ci: usize, var: Var, yield_between_ops: bool) 
                         resizers[cur].clone()
                     };
                     resizers.push(c);
+                    known.push(known[cur]);
                     if *switch {
                         cur = resizers.len() - 1;
                     }
@@ -728,12 +735,14 @@ pub fn run_client(scn: &Scenario, ci: usize, var: Var, yield_between_ops: bool) 
                         let _z = zone::enter(zone::LIBRARY);
                         fir::Resizer::new()
                     };
-                    let o = exec_resize(&mut fresh, r, op.backend, var);
+                    let o = exec_resize(&mut fresh, r, Some(op.backend), var);
                     let _z = zone::enter(zone::LIBRARY);
                     drop(fresh);
                     o
                 } else {
-                    exec_resize(&mut resizers[cur], r, op.backend, var)
+                    let set = if known[cur] == Some(op.backend) { None } else { Some(op.backend) };
+                    known[cur] = Some(op.backend);
+                    exec_resize(&mut resizers[cur], r, set, var)
                 };
                 o.clip_minmax = crate::probe::clip_minmax();
                 o
